@@ -93,6 +93,10 @@ class Evaluator:
             return pb[n.parameter().name], False
         if nt == OK.VARIABLE_EXP:
             v = n.variable()
+            if (v.name, v.type) not in vb:
+                # a variable outside every quantifier: the expression is ill-formed and has no value; whether a
+                # compiler may produce such a thing is C08's question (well-formedness), not the reference's
+                raise Abstain("unbound-variable-in-expression")
             return vb[(v.name, v.type)], False
         if nt == OK.FLUENT_EXP:
             args = []
